@@ -273,13 +273,13 @@ def tactic5 (O : Oracle) (grayKeeps : Bool) (t : PTerm) (H : TL) (xs : List Var)
 /-! ### dispatcher -/
 
 /-- `TACTICS[k]`; a key outside 1..6 is a `KeyError` -/
-def tactic (O : Oracle) (grayKeeps : Bool) (hint : PTerm → TL → Bool → Option (List Nat)) (k : Nat) (t : PTerm) (H : TL) (xs : List Var) (refine : Bool) : TacticRes :=
+def tactic (O : Oracle) (grayKeeps : Bool) (hint : PTerm → TL → List Var → Bool → Option (List Nat)) (k : Nat) (t : PTerm) (H : TL) (xs : List Var) (refine : Bool) : TacticRes :=
   match k with
   | 1 => tactic1 t H xs refine
   | 2 => tactic2 O t H xs refine
   | 3 => tactic3 t H xs refine
   | 4 => tactic4 (H.length + 1) t H xs refine []
-  | 5 => tactic5 O grayKeeps t H xs refine (hint t H refine)
+  | 5 => tactic5 O grayKeeps t H xs refine (hint t H xs refine)
   | 6 => .ok (some t)
   | _ => .error (.py "KeyError")
 
